@@ -4,11 +4,16 @@ Instance: every `while (!W.empty())` loop over a work container. Obligation: the
 (`break` bound to this loop) only from a branch that has established the goal of the search
 (it sets a final state / result flag, or jumps to the found-label); a `break` taken merely because
 the popped element has nothing to contribute (`lookup == end()`, null cluster) abandons the elements
-still queued. `continue` is the accepted idiom for such elements. `goto`/`return` are not instances."""
+still queued. `continue` is the accepted idiom for such elements. `goto`/`return` are not instances.
+
+Clause `foreach`: a range-for loop of a void member function whose body records elements (non-const call on the
+own object) is left by `break`/`return` only from a branch that recorded a verdict just before (assignment /
+non-const call) or that is controlled by a verdict flag (bool field or local); an element that needs no work
+is skipped, it does not end the loop (seed C07-6)."""
 from vfacts import strip, walk, method_name, enclosing, is_node
 
 RULE = 'DRAIN'
-FLOOR = 10
+FLOOR = 22
 LOOPS = ('ForStmt', 'WhileStmt', 'CXXForRangeStmt', 'DoStmt', 'SwitchStmt')
 
 
@@ -70,3 +75,44 @@ def run(unit, em):
                     em.ok(b, name + ': break', 'taken after recording a result')
                 else:
                     em.violation(b, name + ': break', 'the worklist loop is abandoned while elements may still be queued, from a branch that records no result (use `continue` for an element that contributes nothing)')
+        # ---- foreach: a per-element processing loop of a void member function is only left on a verdict
+        if unit.tname(fn.d.get('ret')) != 'void' or not fn.d.get('cls'):
+            continue
+        for lp in fn.walk(lambdas=False):
+            if lp['k'] != 'CXXForRangeStmt' or not is_node(lp.get('body')):
+                continue
+            # processing loop: its body calls a non-const member function of the own object (records the element)
+            records_elem = any(x['k'] == 'CXXMemberCallExpr' and not x.get('const') and x.get('inrepo') and
+                               (strip(x.get('obj')) is None or (strip(x.get('obj')) or {}).get('k') == 'CXXThisExpr')
+                               for x in walk(lp['body'], lambdas=False))
+            if not records_elem:
+                continue
+            exits = [n for n in walk(lp['body'], lambdas=False)
+                     if (n['k'] == 'BreakStmt' and enclosing(n, LOOPS) is lp) or (n['k'] == 'ReturnStmt' and enclosing(n, ('LambdaExpr',)) is None)]
+            name = 'for (%s : ...) in %s' % (lp['var'].get('n'), fn.q.split('::')[-1])
+            if not exits:
+                em.ok(lp, name, 'every element is visited', 'foreach')
+                continue
+            for b in exits:
+                p = b.get('_p')
+                sibs = p.get('ch', []) if p is not None and p['k'] == 'CompoundStmt' else []
+                verdict = False
+                for s in sibs:
+                    if s is b:
+                        break
+                    for x in walk(s):
+                        if x['k'] in ('BinaryOperator', 'CXXOperatorCallExpr', 'CompoundAssignOperator') and x.get('op', '').endswith('=') and x.get('op') not in ('==', '!=', '<=', '>='):
+                            verdict = True
+                        if x['k'] == 'CXXMemberCallExpr' and not x.get('const'):
+                            verdict = True
+                iff = enclosing(b, ('IfStmt',) + LOOPS)
+                if not verdict and iff is not None and iff['k'] == 'IfStmt':
+                    c = strip(iff.get('c'))
+                    while c is not None and c['k'] == 'UnaryOperator' and c.get('op') == '!':
+                        c = strip(c['ch'][0])
+                    if c is not None and (c['k'] == 'MemberExpr' or (c['k'] == 'DeclRefExpr' and unit.ty(c).strip() == 'bool')):
+                        verdict = True      # the exit is controlled by a verdict flag itself
+                if verdict:
+                    em.ok(b, name + ': exit', 'left after a verdict was recorded / on a verdict flag', 'foreach')
+                else:
+                    em.violation(b, name + ': exit', 'the loop over the elements is left from a branch that records no verdict: the remaining elements are never processed (an element that needs no work is skipped with `continue` / an if without else)', 'foreach')
